@@ -3045,7 +3045,8 @@ func (r stack) verifyImplode(spat, tpat []int) (last int, err error) {
 }
 
 func (r *stack) implode(start, max int, spat []int) (tpat []int) {
-	var ct int
+	var ct int  // distance between the write and read positions
+	var run int // nil slices encountered consecutively
 	tpat = make([]int, len(spat), len(spat))
 	tpat[0] = 1 // cfg slice is exempt
 
@@ -3053,12 +3054,13 @@ func (r *stack) implode(start, max int, spat []int) (tpat []int) {
 	defer r.unlock()
 
 	for {
-		if ct >= max || start+ct >= r.ulen() {
+		if run >= max || start+ct >= r.ulen() {
 			break
 		}
 
 		if (*r)[start+ct+1] == nil {
 			ct++
+			run++
 			continue
 		}
 
@@ -3068,7 +3070,7 @@ func (r *stack) implode(start, max int, spat []int) (tpat []int) {
 
 		(*r)[start+ct+1] = nil
 		start = start + 1
-		ct = 0
+		run = 0
 	}
 
 	return
